@@ -205,9 +205,18 @@ func H_C17_Duplicate(v *sym.V) {
 				panicked = true
 			}
 		}()
-		if v.Choice("same-source", 2) == 0 {
+		switch v.Choice("same-source", 4) {
+		case 0:
 			errors.RegisterTypeMigration("verifh", "*verifh.C17Foo", &C17Bar{})
-		} else {
+		case 1:
+			errors.RegisterTypeMigration("verifh", "*verifh.C17Qux", &C17Bar{})
+		case 2:
+			// a chain, then its last link again
+			errors.RegisterTypeMigration("verifh", "*verifh.C17Bar", &C17Baz{})
+			errors.RegisterTypeMigration("verifh", "*verifh.C17Bar", &C17Baz{})
+		case 3:
+			// the same target from another name that resolves to the same original
+			errors.RegisterTypeMigration("verifh", "*verifh.C17Foo", &C17Qux{})
 			errors.RegisterTypeMigration("verifh", "*verifh.C17Qux", &C17Bar{})
 		}
 	}()
@@ -225,6 +234,22 @@ func (w *C17WBar) Error() string { return "w: " + w.Cause.Error() }
 func (w *C17WBar) Unwrap() error { return w.Cause }
 
 const c17WFooKey = "verifh/*verifh.C17WFoo"
+
+// c17WDecode: whether the current "process" registered a decoder for the wrapper
+// type, and under which of its names it rebuilds it (0 = no decoder: opaque).
+var c17WDecode int
+
+func init() {
+	errors.RegisterWrapperDecoder(c17WFooKey, func(_ context.Context, cause error, _ string, _ []string, _ proto.Message) error {
+		switch c17WDecode {
+		case 1:
+			return &C17WFoo{cause}
+		case 2:
+			return &C17WBar{cause}
+		}
+		return nil
+	})
+}
 
 func inWrapperProcess(version int, body func()) {
 	restore := errbase.TestingWithEmptyMigrationRegistry()
@@ -259,8 +284,18 @@ func H_C17_Wrapper(v *sym.V) {
 		inWrapperProcess(0, func() { enc = wire.Copy(wire.Encode(wire.Decode(enc))) })
 		v.Assert("wwire-name-after-mid", familyOf(enc) == c17WFooKey)
 	}
+	withDecoder := recv > 0 && v.Choice("decoder", 2) == 1
 	inWrapperProcess(recv, func() {
+		if withDecoder {
+			c17WDecode = recv
+			defer func() { c17WDecode = 0 }()
+		}
 		d := wire.Decode(enc)
+		if withDecoder {
+			_, isFoo := d.(*C17WFoo)
+			_, isBar := d.(*C17WBar)
+			v.Assert("wdecoded-type", (recv == 1 && isFoo) || (recv == 2 && isBar))
+		}
 		v.Assert("wtext", d.Error() == "w: "+m)
 		v.Assert("wkey@receiver", string(errors.GetTypeKey(d)) == c17WFooKey)
 		if recv > 0 {
